@@ -35,8 +35,13 @@ type anaResult struct {
 
 var noiseFreeMemo sync.Map // game FEN -> anaResult of a never-noisy engine with another hash seed
 
-func analyseOnce(ctx context.Context, e *engine.Engine) (anaResult, error) {
-	out, err := e.Analyze(ctx, searchctl.Options{DepthLimit: lang.Some(uint(2))})
+// analyseOnce: depth 0 = no depth given with the command (the engine's Depth option applies).
+func analyseOnce(ctx context.Context, e *engine.Engine, depth uint) (anaResult, error) {
+	opt := searchctl.Options{}
+	if depth > 0 {
+		opt.DepthLimit = lang.Some(depth)
+	}
+	out, err := e.Analyze(ctx, opt)
 	if err != nil {
 		return anaResult{}, err
 	}
@@ -49,14 +54,15 @@ func analyseOnce(ctx context.Context, e *engine.Engine) (anaResult, error) {
 }
 
 func noiseEngine(ctx context.Context, seed int64) *engine.Engine {
-	return engine.New(ctx, "verif", "verif", search.AlphaBeta{Eval: search.Leaf{Eval: eval.Material{}}}, engine.WithOptions(engine.Options{Hash: 0}), engine.WithZobrist(seed))
+	return engine.New(ctx, "verif", "verif", search.AlphaBeta{Eval: search.Leaf{Eval: eval.Material{}}}, engine.WithOptions(engine.Options{Hash: 0, Depth: 2}), engine.WithZobrist(seed))
 }
 
 // playNoiseWord runs the word on a fresh engine and returns what every analyze op returned,
 // together with the noise setting and the game at that moment.
-func playNoiseWord(ctx context.Context, word []string, seed int64) (results []anaResult, noisy []bool, games []string, err error) {
+func playNoiseWord(ctx context.Context, word []string, seed int64) (results []anaResult, noisy []bool, games []string, depths []uint, err error) {
 	e := noiseEngine(ctx, seed)
 	noise := uint(0)
+	option := uint(2) // the Depth option as last set
 	effective := uint(0) // the option takes effect at the next reset (a new game)
 	for i, op := range word {
 		switch {
@@ -65,27 +71,39 @@ func playNoiseWord(ctx context.Context, word []string, seed int64) (results []an
 			e.SetNoise(noise)
 		case strings.HasPrefix(op, "reset "):
 			if err := e.Reset(ctx, strings.TrimPrefix(op, "reset ")); err != nil {
-				return nil, nil, nil, fmt.Errorf("op %d (%s): %v", i+1, op, err)
+				return nil, nil, nil, nil, fmt.Errorf("op %d (%s): %v", i+1, op, err)
 			}
 			effective = noise
 		case op == "move0":
 			ms := e.Board().Position().LegalMoves(e.Board().Turn())
 			if len(ms) > 0 {
 				if err := e.Move(ctx, bridge.Text(ms[0])); err != nil {
-					return nil, nil, nil, fmt.Errorf("op %d (%s): %v", i+1, op, err)
+					return nil, nil, nil, nil, fmt.Errorf("op %d (%s): %v", i+1, op, err)
 				}
 			}
-		case op == "analyze":
-			r, err := analyseOnce(ctx, e)
+		case strings.HasPrefix(op, "depth "):
+			fmt.Sscan(strings.TrimPrefix(op, "depth "), &option)
+			e.SetDepth(option)
+		case strings.HasPrefix(op, "analyze"):
+			given := uint(0) // "analyze": no depth with the command; "analyze N": depth N for this analysis only
+			fmt.Sscan(strings.TrimPrefix(op, "analyze"), &given)
+			r, err := analyseOnce(ctx, e, given)
 			if err != nil {
-				return nil, nil, nil, fmt.Errorf("op %d (%s): %v", i+1, op, err)
+				return nil, nil, nil, nil, fmt.Errorf("op %d (%s): %v", i+1, op, err)
+			}
+			if got := e.Options().Depth; got != option {
+				return nil, nil, nil, nil, fmt.Errorf("op %d (%s): the engine's Depth option is %d after the analysis, it was set to %d", i+1, op, got, option)
+			}
+			if given == 0 {
+				given = option
 			}
 			results = append(results, r)
 			noisy = append(noisy, effective > 0)
 			games = append(games, e.Position())
+			depths = append(depths, given)
 		}
 	}
-	return results, noisy, games, nil
+	return results, noisy, games, depths, nil
 }
 
 func runC18Noise(word []string) (msg string) {
@@ -95,11 +113,11 @@ func runC18Noise(word []string) (msg string) {
 		}
 	}()
 	ctx := context.Background()
-	r1, noisy, games, err := playNoiseWord(ctx, word, 7)
+	r1, noisy, games, depths, err := playNoiseWord(ctx, word, 7)
 	if err != nil {
 		return err.Error()
 	}
-	r2, _, _, err := playNoiseWord(ctx, word, 7)
+	r2, _, _, _, err := playNoiseWord(ctx, word, 7)
 	if err != nil {
 		return err.Error()
 	}
@@ -112,31 +130,32 @@ func runC18Noise(word []string) (msg string) {
 		}
 		// noise is off for this game: the result is that of an engine that never had noise, whatever its hash seed
 		var want anaResult
-		if v, ok := noiseFreeMemo.Load(games[i]); ok {
+		key := fmt.Sprint(games[i], " d", depths[i])
+		if v, ok := noiseFreeMemo.Load(key); ok {
 			want = v.(anaResult)
 		} else {
 			f := noiseEngine(ctx, 20260917)
 			if err := f.Reset(ctx, games[i]); err != nil {
 				return "fresh reset failed: " + err.Error()
 			}
-			if want, err = analyseOnce(ctx, f); err != nil {
+			if want, err = analyseOnce(ctx, f, depths[i]); err != nil {
 				return "fresh analysis failed: " + err.Error()
 			}
-			noiseFreeMemo.Store(games[i], want)
+			noiseFreeMemo.Store(key, want)
 		}
 		if r1[i] != want {
-			return fmt.Sprintf("analysis %d of %q runs with the noise option OFF for its game (%s) but returned %v; an engine that never had noise on (other hash seed) returns %v", i+1, word, games[i], r1[i], want)
+			return fmt.Sprintf("analysis %d of %q runs with the noise option OFF for its game (%s) and depth %d (given with the command, else the Depth option) but returned %v; a fresh engine that never had noise on (other hash seed) returns %v for that game and depth", i+1, word, games[i], depths[i], r1[i], want)
 		}
 	}
 	return ""
 }
 
 func noiseWords(c *harness.Check) {
-	alphabet := []string{"noise 5000", "noise 0", "reset r3k2r/8/8/8/8/8/8/R3K2R w KQkq - 3 9", "reset r1b1k3/ppp5/8/4N3/8/8/PPP5/2K5 w - - 0 1", "move0", "analyze"}
+	alphabet := []string{"noise 5000", "noise 0", "reset r3k2r/8/8/8/8/8/8/R3K2R w KQkq - 3 9", "reset r1b1k3/ppp5/8/4N3/8/8/PPP5/2K5 w - - 0 1", "move0", "analyze", "analyze 1", "analyze 3", "depth 1"}
 	var words [][]string
 	var gen func(w []string)
 	gen = func(w []string) {
-		if len(w) > 0 && w[len(w)-1] == "analyze" {
+		if len(w) > 0 && strings.HasPrefix(w[len(w)-1], "analyze") {
 			words = append(words, append([]string(nil), w...))
 		}
 		if len(w) == c.Pick(5, 6) {
